@@ -8,7 +8,11 @@
 //! [spec]: https://tc39.es/ecma262/#sec-scripts
 //! [script]: https://tc39.es/ecma262/#sec-script-records
 
-use std::path::{Path, PathBuf};
+use std::{
+    cell::Cell,
+    ops::Range,
+    path::{Path, PathBuf},
+};
 
 use rustc_hash::FxHashMap;
 
@@ -16,7 +20,7 @@ use boa_gc::{Finalize, Gc, GcRefCell, Trace};
 use boa_parser::{Parser, Source, source::ReadChar};
 
 use crate::{
-    Context, HostDefined, JsResult, JsString, JsValue, Module, SpannedSourceText,
+    Context, HostDefined, JsNativeError, JsResult, JsString, JsValue, Module, SpannedSourceText,
     bytecompiler::{ByteCompiler, global_declaration_instantiation_context},
     environments::EnvironmentStack,
     js_string,
@@ -57,6 +61,13 @@ struct Inner {
     loaded_modules: GcRefCell<FxHashMap<JsString, Module>>,
     host_defined: HostDefined,
     path: Option<PathBuf>,
+    /// Indices of the global lexical bindings that analysing this script added to the scope
+    /// of its realm.
+    #[unsafe_ignore_trace]
+    lexical_bindings: Range<u32>,
+    /// `true` while those bindings are discarded because instantiating the script failed.
+    #[unsafe_ignore_trace]
+    instantiation_failed: Cell<bool>,
 }
 
 impl Script {
@@ -101,7 +112,9 @@ impl Script {
             .unwrap_or_else(|| context.realm())
             .scope()
             .clone();
+        let bindings_before = scope.num_bindings();
         let (mut code, source) = parser.parse_script_with_source(&scope, context.interner_mut())?;
+        let lexical_bindings = bindings_before..scope.num_bindings();
         if !context.optimizer_options().is_empty() {
             context.optimize_statement_list(code.statements_mut());
         }
@@ -116,6 +129,8 @@ impl Script {
                 loaded_modules: GcRefCell::default(),
                 host_defined: HostDefined::default(),
                 path,
+                lexical_bindings,
+                instantiation_failed: Cell::new(false),
             }),
         })
     }
@@ -221,6 +236,29 @@ impl Script {
     }
 
     fn prepare_run(&self, context: &mut Context) -> JsResult<()> {
+        let scope = self.inner.realm.scope();
+
+        if self.inner.instantiation_failed.get() {
+            // A new attempt after a failed one: the declarations of this script become
+            // visible again, unless another script has declared one of the names meanwhile.
+            if !scope.restore_bindings(self.inner.lexical_bindings.clone()) {
+                return Err(JsNativeError::syntax()
+                    .with_message("duplicate lexical declaration")
+                    .into());
+            }
+            self.inner.instantiation_failed.set(false);
+        }
+
+        self.instantiate(context).inspect_err(|_| {
+            // Scope analysis added the lexical declarations of this script to the scope of the
+            // realm when it was parsed, but the script never got to create them: later scripts
+            // must not resolve these names to bindings that do not exist.
+            scope.discard_bindings(self.inner.lexical_bindings.clone());
+            self.inner.instantiation_failed.set(true);
+        })
+    }
+
+    fn instantiate(&self, context: &mut Context) -> JsResult<()> {
         let codeblock = self.codeblock(context)?;
 
         let global_env = EnvironmentStack::new();
